@@ -1,6 +1,12 @@
 //! Parses a stream of [`crate::scan::Tokens`] into an untyped [`crate::ast::Program`].
 
+#[cfg(not(feature = "verif_hooks"))]
 use std::{collections::HashMap, iter::Peekable, vec::IntoIter};
+#[cfg(feature = "verif_hooks")]
+use {
+    crate::verif_hooks::HashMap,
+    std::{iter::Peekable, vec::IntoIter},
+};
 
 use crate::{
     UntypedExpr, UntypedFnDef, UntypedPattern, UntypedProgram, UntypedStmt,
